@@ -49,7 +49,7 @@ inline std::string vis(const std::string &s){ std::string r; char b[8]; for(unsi
 struct Violation { std::string sig, what, replay; };
 
 struct Ctx {
-	std::string prop, level, tier="quick"; long seed=0; std::string replay_file;
+	std::string prop, level, tier="quick"; long seed=0; std::string replay_file, pass, result_file;
 	double t0=0, budget_s=0;
 	uint64_t evaluations=0, states=0, transitions=0, traces=0;
 	std::unordered_set<uint64_t> distinct;
@@ -79,6 +79,8 @@ inline void init(int argc,char **argv,const char *prop,const char *level){
 		if(a=="--tier"&&i+1<argc) c.tier=argv[++i];
 		else if(a=="--replay"&&i+1<argc) c.replay_file=argv[++i];
 		else if(a=="--budget"&&i+1<argc) c.budget_s=atof(argv[++i]);
+		else if(a=="--pass"&&i+1<argc) c.pass=argv[++i];
+		else if(a=="--result"&&i+1<argc) c.result_file=argv[++i];
 	}
 	if(c.tier!="quick"&&c.tier!="thorough"){ fprintf(stderr,"bad tier %s\n",c.tier.c_str()); exit(2);}
 	if(c.budget_s==0){ const char *e=getenv("VERIF_BUDGET_S"); c.budget_s = e?atof(e):(c.tier=="quick"?100:1500); }
@@ -206,9 +208,18 @@ inline uint64_t explore(int max_dev,const std::function<void(Envx&)> &body,bool 
 	return runs;
 }
 
+// Run a sibling binary of this harness built in another flavour (e.g. "rel" for >10^8-case sweeps) as a
+// sub-pass; its counters and violations are merged into this run.
+inline void run_sub(const std::string &flavour,const std::string &pass){ Ctx &c=C(); std::string res=scratch_dir()+"/sub."+flavour+"."+pass+".res";
+	std::string cmd=verif_dir()+"/build/bin/"+c.prop+"."+flavour+" --tier "+c.tier+" --pass "+pass+" --result '"+res+"'";
+	fflush(stdout); int st=system(cmd.c_str()); FILE *f=fopen(res.c_str(),"rb");
+	if(st!=0||!f||!merge_ctx(f)){ fprintf(stderr,"harness error: sub-pass %s/%s failed (status %d)\n",flavour.c_str(),pass.c_str(),st); c.harness_error=true; }
+	if(f) fclose(f); unlink(res.c_str()); }
+
 // ---- finish: evidence + verdict ----------------------------------------------------------------
 inline int finish(){
 	Ctx &c=C(); std::string vd=verif_dir();
+	if(!c.result_file.empty()){ FILE *f=fopen(c.result_file.c_str(),"wb"); if(!f) return 2; dump_ctx(f); fclose(f); std::string keep=c.result_file; if(keep.find(scratch_dir())!=0) cleanup_scratch(); return 0; }
 	if(system(("mkdir -p '"+vd+"/evidence' '"+vd+"/replays'").c_str())){}
 	std::vector<Known> known=load_known(); int unlisted=0;
 	for(auto &kv:c.viol){ Violation &v=kv.second; bool is_known=false; std::string kwhat;
